@@ -59,7 +59,7 @@ CLAIMED["C17"] = dict(
     ref="DESIGN.md 3 (C17)",
     note=("Trusted: Kani/CBMC/SAT; std's StdinLock/BufReader implements the BufRead contract the model states (fill_buf = unread part of the "
           "buffered chunk, next read when empty; consume advances); memchr scalar stub; container model for the 8 KiB line buffer (appends into "
-          "pre-allocated capacity); input <= 4 bytes over {newline,x,y} (5 and all byte values thorough); lines > 8 KiB, EINTR and invalid UTF-8 outside."),
+          "pre-allocated capacity); quick: input <= 3 bytes over {newline,x,y} in every chunk schedule, one multi-byte and one three-call instance (one scheduling wave, about 5 min); thorough: 4 bytes, all multi-byte and three-call instances; lines > 8 KiB, EINTR and invalid UTF-8 outside."),
 )
 CLAIMED["C18"] = dict(
     text=("Bounded model checking of the real limit check for ALL cap and count values: first_exceeded_limit reports a limit iff some metric "
